@@ -270,6 +270,20 @@ func (w *x9World) settle(quiet, max time.Duration) {
 	}
 }
 
+// poll a condition on the counters (under the lock), at most `max`
+func (w *x9World) waitFor(cond func() bool, max time.Duration) {
+	deadline := time.Now().Add(max)
+	for time.Now().Before(deadline) {
+		w.mu.Lock()
+		ok := cond()
+		w.mu.Unlock()
+		if ok {
+			return
+		}
+		time.Sleep(5 * time.Millisecond)
+	}
+}
+
 func x9RunScenario(tree *x9Tree, sc x9Scenario) x9Result {
 	w := &x9World{tree: tree, sc: sc, starts: map[string]int{}, live: map[string]int{}, cancelled: map[string]int{}, liveF: map[int]int{}, maxLiveF: map[int]int{},
 		trigger: make(chan struct{}), lastStart: time.Now()}
@@ -288,18 +302,45 @@ func x9RunScenario(tree *x9Tree, sc x9Scenario) x9Result {
 		opts = append(opts, WithPropagatePanic)
 	}
 	New(ctx, zap.NewNop(), w.root(), opts...)
-	// the tree comes up (with a failing constructor: comes up, is torn down, comes up again after the root's back-off)
-	w.settle(2500*time.Millisecond, 20*time.Second)
+	enabled := 0
+	for _, st := range tree.Program {
+		if st.Op == "run" && w.flagOn(st.Flag) {
+			enabled += len(st.Names)
+		}
+	}
+	// the tree comes up: every enabled service has been started (with a failing constructor: the root runnable has been started twice
+	// and then every service), at most 10 s; then nothing is started for a while
+	w.waitFor(func() bool {
+		n := 0
+		for _, sv := range tree.Services {
+			if w.starts[sv.Name] > 0 {
+				n++
+			}
+		}
+		return n >= enabled && (sc.Kind != "ctor" || w.rootStarts >= 2)
+	}, 10*time.Second)
+	w.settle(1500*time.Millisecond, 20*time.Second)
 	if sc.Kind != "none" && sc.Kind != "ctor" {
 		close(w.trigger)
-		if sc.Kind == "cancel" {
+		switch sc.Kind {
+		case "cancel":
+			// every instance has seen its context cancelled, at most 10 s; then a while for starts that must not happen
+			w.waitFor(func() bool {
+				for _, sv := range tree.Services {
+					if w.live[sv.Name] > 0 {
+						return false
+					}
+				}
+				return true
+			}, 10*time.Second)
 			time.Sleep(1500 * time.Millisecond)
-		} else {
-			time.Sleep(50 * time.Millisecond)
+		default:
+			// the failed service is running again, at most 10 s (the first back-off is at most 750 ms); then nothing is started for a while
+			w.waitFor(func() bool { return w.starts[sc.Svc] >= 2 }, 10*time.Second)
 			w.mu.Lock()
 			w.lastStart = time.Now()
 			w.mu.Unlock()
-			w.settle(2500*time.Millisecond, 20*time.Second)
+			w.settle(1500*time.Millisecond, 20*time.Second)
 		}
 	}
 	w.mu.Lock()
